@@ -102,15 +102,21 @@ impl TTLTicker {
             while let Ok(_instant) = receiver.recv() {
                 let now = clock.now();
                 let shard_index = self.shard_index(&now);
+                #[cfg(cached_verif)]
+                crate::cache::verif::emit(crate::cache::verif::Event::SweepBegin { now, shard: shard_index });
 
                 self.shards[shard_index].write().retain(|key, expire_after| {
                     let has_not_expired = now.le(expire_after);
                     if !has_not_expired {
                         debug!("Key with id {} has expired", key);
+                        #[cfg(cached_verif)]
+                        crate::cache::verif::emit(crate::cache::verif::Event::SweepExpired { id: *key, expiry: *expire_after });
                         (evict_hook)(key);
                     }
                     has_not_expired
                 });
+                #[cfg(cached_verif)]
+                crate::cache::verif::emit(crate::cache::verif::Event::SweepDone);
 
                 if !keep_running.load(Ordering::Acquire) {
                     info!("Shutting down TTLTicker");
